@@ -10,8 +10,8 @@ from .. import plan as P
 from ..sim import tree_digest, tree_struct
 
 PROP = "C14"
-N_QUICK = 1200
-N_THOROUGH = 24000
+N_QUICK = 2000
+N_THOROUGH = 40000
 RULE = ("Every plan has options.random_seed (or minimize(seed=...)) set and is executed four times in one worker "
         "process - base; other prior RNG state (seed + junk draws); other virtual clock (offset, cost, jumps); both plus "
         "other substituted OS entropy, late after an unrelated run - and a sample of the plans again in freshly spawned "
@@ -20,7 +20,7 @@ RULE = ("Every plan has options.random_seed (or minimize(seed=...)) set and is e
         "mixes, both sprout mechanisms and composed ones, hibernation on/off.")
 NONTRIVIAL_RULE = "a seeded plan that completed >= 1 metaepoch and whose 4 in-process executions were compared"
 EXPECTED_PROBES = ["c14-twins-compared", "c14-fresh-interpreter-compared", "c14-hibernation-on", "c14-with-cma",
-                   "c14-with-qmc", "c14-with-local", "c14-minimize-entry"]
+                   "c14-with-qmc", "c14-with-local", "c14-minimize-entry", "c14-nan-stratum"]
 ASSUMPTIONS = ["uuids, loggers and wall-clock durations are excluded from the digests",
                "unseeded QMC samplers (numpy default_rng) cannot be put behind a seam and are not simulated"]
 WALL_S = 60.0
@@ -36,6 +36,8 @@ def gen(seed, tier):
         pl["minimize"]["seed"] = seed % 1000003
     if "options" in pl and pl["options"].get("random_seed") is None:
         pl["options"]["random_seed"] = seed % 1000003
+    if "levels" in pl and seed % 7 == 0:
+        P.nan_stratum(pl, seed)  # comparisons of NaN fitness values must not make a seeded run irreproducible
     return pl
 
 
@@ -117,6 +119,8 @@ def run(plan):
                 w.probe("c14-with-local")
             if plan.get("entry") == "minimize":
                 w.probe("c14-minimize-entry")
+            if plan.get("nan_stratum"):
+                w.probe("c14-nan-stratum")
         return runner.summarize_world(w, mod, plan, {"tree": dg})
     finally:
         w.dispose()
